@@ -23,7 +23,7 @@ ASSUMPTIONS = ['oslo.context RequestContext.to_policy_values is the conversion t
 LEVEL_TEXT = ('The statement quantifies over a finite product; all of it (about 2.3e4 rows) is executed against the real '
               'enforcer - complete for the stated table.')
 LEVEL_NOTE = 'trusted: the reference function (token scope derivation + membership) transcribed from the statement'
-PLAN = {'quick': dict(shards=4, wall=90), 'thorough': dict(shards=8, wall=300)}
+PLAN = {'quick': dict(shards=4, wall=120), 'thorough': dict(shards=8, wall=300)}
 MIN = {'reference_rows': 20000, 'reference_gate_denied_rows': 3000, 'reference_rows_where_referenced_scope_disagrees': 3000, 'overlapping_evaluations': 200, 'option_flips_on_living_enforcer': 2, 'evaluations': 5000, 'gate_denied_rows': 500, 'allow_decisions': 500}
 ANCHORS = ['oslo_policy.policy:Enforcer._enforce_scope', 'oslo_policy.policy:Enforcer.enforce',
            'oslo_policy.policy:Enforcer._map_context_attributes_into_creds']
